@@ -10,7 +10,7 @@ from sa.cf import cfg_of
 from sa.pm import ClassInfo, FuncInfo, call_name, norm, self_attr, walk_local_ordered
 from sa.report import Ob, rule
 
-from .common import attr_stores, ob, strip_ret, traces
+from .common import attr_stores, find_locals, ob, strip_ret, traces
 
 OUT = 'zeroconf._protocol.outgoing.DNSOutgoing'
 INC = 'zeroconf._protocol.incoming.DNSIncoming'
@@ -287,22 +287,36 @@ def layout(ctx: Any) -> List[Ob]:
     obs.append(ob(R, wt, 'self._write_int(...)', 'the TTL is one 32-bit field', [call_name(c) for c in walk_local_ordered(wt.node) if isinstance(c, ast.Call) and call_name(c).startswith(('_write', 'write'))] == ['_write_int']))
 
     def read_frame(f: FuncInfo, nfixed: int) -> Tuple[List[Tuple[str, str, int]], Optional[int]]:
+        """Tokens read per entry; each local is named by the role it plays: the parameter of the
+        constructor / record reader it is handed to (so renaming a local changes nothing)."""
         me_ = f.params[0]
         toks: List[Tuple[str, str, int]] = []
         adv = None
         lp = next((n for n in walk_local_ordered(f.node) if isinstance(n, ast.For)), None)
         if lp is None:
             return toks, adv
+        role: Dict[str, str] = {}
+        for c in ast.walk(lp):
+            if isinstance(c, ast.Call) and call_name(c) in ('DNSQuestion', '_read_record'):
+                if call_name(c) == 'DNSQuestion':
+                    pn = ['name', 'type', 'class']
+                else:
+                    pn = [x.rstrip('_') for x in prog.func(INC + '._read_record').params[1:]]
+                    pn = ['name' if x == 'domain' else x for x in pn]
+                for a, nm in zip(c.args, pn):
+                    if isinstance(a, ast.Name):
+                        role.setdefault(a.id, nm)
         for st in lp.body:
             if isinstance(st, ast.Assign) and isinstance(st.targets[0], ast.Name):
+                v = st.targets[0].id
                 if isinstance(st.value, ast.Call) and call_name(st.value) == '_read_name':
-                    toks.append(('NAME', 'name', -1))
+                    toks.append(('NAME', role.get(v, '?' + v), -1))
                 bp = be_pattern(prog, f.module, st.value)
                 if bp is not None:
-                    toks.append((f'U{8 * bp[0]}', st.targets[0].id.rstrip('_'), bp[1]))
+                    toks.append((f'U{8 * bp[0]}', role.get(v, '?' + v), bp[1]))
             if isinstance(st, ast.AugAssign) and self_attr(st.target, me_) == 'offset':
-                okc, v = prog.try_fold(f.module, st.value)
-                adv = v if okc else None
+                okc, v2 = prog.try_fold(f.module, st.value)
+                adv = v2 if okc else None
         return toks, adv
 
     rq, adv_q = read_frame(prog.func(INC + '._read_questions'), 4)
@@ -324,8 +338,11 @@ def layout(ctx: Any) -> List[Ob]:
     obs.append(ob(R, rh, f'reads {hdr}, advances {adv_h}', f'header fields in wire order are {RFC_HEADER}, 12 bytes (RFC 1035 4.1.1)', [f for _, f in hdr] == RFC_HEADER and [o for o, _ in hdr] == [0, 2, 4, 6, 8, 10] and adv_h == 12))
     # rdlength honoured on skip and on decode error
     ro_f = prog.func(INC + '._read_others')
-    ends = [st for st in walk_local_ordered(ro_f.node) if isinstance(st, ast.Assign) and isinstance(st.targets[0], ast.Name) and st.targets[0].id == 'end']
-    obs.append(ob(R, ro_f, 'end = self.offset + length; except: self.offset = end', 'a record that fails to decode is skipped by its rdlength', bool(ends) and any(isinstance(st, ast.Assign) and self_attr(st.targets[0], ro_f.params[0]) == 'offset' and norm(st.value) == 'end' for st in walk_local_ordered(ro_f.node))))
+    len_local = next((a.id for c in ast.walk(ro_f.node) if isinstance(c, ast.Call) and call_name(c) == '_read_record' and len(c.args) == 5 for a in [c.args[4]] if isinstance(a, ast.Name)), '?')
+    ends = [st.targets[0].id for st in walk_local_ordered(ro_f.node) if isinstance(st, ast.Assign) and isinstance(st.targets[0], ast.Name) and isinstance(st.value, ast.BinOp) and isinstance(st.value.op, ast.Add) and {norm(st.value.left), norm(st.value.right)} == {f'{ro_f.params[0]}.offset', len_local}]
+    handlers = [h for t in walk_local_ordered(ro_f.node) if isinstance(t, ast.Try) for h in t.handlers]
+    resets = [st for h in handlers for st in ast.walk(h) if isinstance(st, ast.Assign) and self_attr(st.targets[0], ro_f.params[0]) == 'offset' and norm(st.value) in ends]
+    obs.append(ob(R, ro_f, 'end = self.offset + length; except: self.offset = end', 'a record that fails to decode is skipped by its rdlength', bool(ends) and bool(resets)))
     skip = [st for st in rinc.node.body if isinstance(st, ast.AugAssign) and self_attr(st.target, rinc.params[0]) == 'offset']
     obs.append(ob(R, rinc, 'self.offset += length', 'an unknown record type is skipped by exactly its rdlength', len(skip) == 1 and norm(skip[0].value) == rinc.params[5]))
     # created time of decoded records = arrival time
@@ -373,9 +390,11 @@ def label(ctx: Any) -> List[Ob]:
     good = len(chk) == 1 and len(enc) == 1 and len(wb) == 1 and len(ws) == 1 and norm(chk[0].value.args[0]) == norm(enc[0].targets[0]) and norm(wb[0].args[0]) == norm(chk[0].targets[0]) and norm(ws[0].args[0]) == norm(enc[0].targets[0])
     obs.append(ob(R, wu, 'length byte then the encoded bytes', 'a label is written as its UTF-8 byte length followed by exactly those bytes', good))
     dec = prog.func(INC + '._decode_labels_at_offset')
-    consts = sorted({prog.try_fold(dec.module, c.comparators[0])[1] for c in walk_local_ordered(dec.node) if isinstance(c, ast.Compare) and isinstance(c.ops[0], ast.Lt) and norm(c.left) == 'length' and prog.try_fold(dec.module, c.comparators[0])[0]})
+    off_p = dec.params[1]
+    len_vars = [st.targets[0].id for st in walk_local_ordered(dec.node) if isinstance(st, ast.Assign) and isinstance(st.targets[0], ast.Name) and isinstance(st.value, ast.Subscript) and norm(st.value.slice) == off_p]
+    consts = sorted({prog.try_fold(dec.module, c.comparators[0])[1] for c in walk_local_ordered(dec.node) if isinstance(c, ast.Compare) and isinstance(c.ops[0], ast.Lt) and norm(c.left) in len_vars and prog.try_fold(dec.module, c.comparators[0])[0]})
     obs.append(ob(R, dec, f'length < {consts}', 'the decoder takes length < 0x40 as a label and length < 0xC0 (otherwise) as an unknown type', consts == [0x40, 0xC0]))
-    link = [st for st in walk_local_ordered(dec.node) if isinstance(st, ast.Assign) and isinstance(st.targets[0], ast.Name) and st.targets[0].id == 'link']
+    link = [st for st in walk_local_ordered(dec.node) if isinstance(st, ast.Assign) and isinstance(st.targets[0], ast.Name) and any(isinstance(x, ast.BinOp) and isinstance(x.op, ast.BitAnd) for x in ast.walk(st.value)) and isinstance(st.value, ast.BinOp)]
     okl = False
     if len(link) == 1:
         v = link[0].value
@@ -479,15 +498,15 @@ def rollback(ctx: Any) -> List[Ob]:
     # names are recorded with the position the name starts at
     wn = out.methods['write_name']
     stores = [st for st in walk_local_ordered(wn.node) if isinstance(st, ast.Assign) and isinstance(st.targets[0], ast.Subscript) and self_attr(st.targets[0].value, wn.params[0]) == 'names']
-    oks = len(stores) == 2 and norm(stores[0].value) == 'start_size'
+    start_vars = [n for n in find_locals(wn, lambda v: self_attr(v, wn.params[0]) == 'size')]
+    nl_vars = [n for n in find_locals(wn, lambda v: isinstance(v, ast.Call) and norm(v.func) == 'len' and isinstance(v.args[0], ast.Call) and call_name(v.args[0]) == 'encode' and norm(v.args[0].func.value) == wn.params[1])]
+    oks = len(stores) == 2 and len(start_vars) == 1 and len(nl_vars) == 1 and norm(stores[0].value) == start_vars[0]
     if oks:
         try:
-            p = lf.poly(prog, wn.module, stores[1].value, lambda x: ('S' if isinstance(x, ast.Name) and x.id == 'start_size' else ('N' if isinstance(x, ast.Name) and x.id == 'name_length' else ('P' if isinstance(x, ast.Call) and norm(x.func) == 'len' and isinstance(x.args[0], ast.Call) and call_name(x.args[0]) == 'encode' and norm(x.args[0].func.value) == norm(stores[1].targets[0].slice) else None))))
+            p = lf.poly(prog, wn.module, stores[1].value, lambda x: ('S' if isinstance(x, ast.Name) and x.id in start_vars else ('N' if isinstance(x, ast.Name) and x.id in nl_vars else ('P' if isinstance(x, ast.Call) and norm(x.func) == 'len' and isinstance(x.args[0], ast.Call) and call_name(x.args[0]) == 'encode' and norm(x.args[0].func.value) == norm(stores[1].targets[0].slice) else None))))
             oks = p == lf.parse_poly('S + N - P')
         except lf.NotLinear:
             oks = False
-    nl = [st for st in walk_local_ordered(wn.node) if isinstance(st, ast.Assign) and isinstance(st.targets[0], ast.Name) and st.targets[0].id == 'name_length' and not isinstance(st.value, ast.Constant)]
-    oks = oks and len(nl) == 1 and isinstance(nl[0].value, ast.Call) and norm(nl[0].value.func) == 'len' and isinstance(nl[0].value.args[0], ast.Call) and call_name(nl[0].value.args[0]) == 'encode'
     obs.append(ob(R, wn, 'self.names[partial_name] = start_size + name_length - len(partial_name.encode())', 'each suffix is recorded at the offset where it starts (start of the name + bytes before the suffix)', oks))
     return obs
 
